@@ -529,3 +529,12 @@ VARIANTS += [
       replace='\tif authenticityResult.Error != nil {\n\t\toutcome.VerificationResults = append(outcome.VerificationResults, authenticityResult)\n\t}\n\tlogVerificationResult(logger, authenticityResult)\n',
       why='the search in processPluginResponse can now find nothing: nil dereference on a failed plugin verdict'),
 ]
+
+# ---- map handed to an unexported helper: decided at the helper's call sites (cross-sweep of C04's benign variants) ----
+_PK = 'internal/pkix/pkix.go'
+_ATTR_HELPER = [('internal/pkix/pkix.go', '// ParseDistinguishedName parses a DN name and validates Notary Project rules\n', '// addAttribute stores one attribute under its canonical type.\nfunc addAttribute(attrKeyValue map[string]string, name string, attribute *ldapv3.AttributeTypeAndValue) error {\n\t// stateOrProvince name \'S\' is an alias for \'ST\'\n\tif attribute.Type == "S" {\n\t\tattribute.Type = "ST"\n\t}\n\tif attrKeyValue[attribute.Type] == "" {\n\t\tattrKeyValue[attribute.Type] = attribute.Value\n\t} else {\n\t\treturn fmt.Errorf("distinguished name (DN) %q has duplicate RDN attribute for %q, DN can only have unique RDN attributes", name, attribute.Type)\n\t}\n\treturn nil\n}\n\n// ParseDistinguishedName parses a DN name and validates Notary Project rules\n'), ('internal/pkix/pkix.go', '\t\t\t// stateOrProvince name \'S\' is an alias for \'ST\'\n\t\t\tif attribute.Type == "S" {\n\t\t\t\tattribute.Type = "ST"\n\t\t\t}\n\t\t\tif attrKeyValue[attribute.Type] == "" {\n\t\t\t\tattrKeyValue[attribute.Type] = attribute.Value\n\t\t\t} else {\n\t\t\t\treturn nil, fmt.Errorf("distinguished name (DN) %q has duplicate RDN attribute for %q, DN can only have unique RDN attributes", name, attribute.Type)\n\t\t\t}\n', '\t\t\tif err := addAttribute(attrKeyValue, name, attribute); err != nil {\n\t\t\t\treturn nil, err\n\t\t\t}\n')]
+VARIANTS += [
+ dict(name='benign-map-filled-by-helper', expect='silent', edits=_ATTR_HELPER, why='the helper updates a map its only caller has just made'),
+ dict(name='map-filled-by-helper-caller-passes-nil-map', expect='flagged(map-update/)', edits=_ATTR_HELPER + [(_PK, '\tattrKeyValue := make(map[string]string)\n', '\tvar attrKeyValue map[string]string\n')],
+      why='the caller declares the map without making it: the update in the helper panics'),
+]
